@@ -312,9 +312,16 @@ def check_file(case, cc):
         report_table(cc, t, compare_table(t, eflr), 'record')
     # ---- route B: the logical index
     try:
-        with LogicalFile.LogicalIndex(engine.handle(data)) as index:
+        index_obj = LogicalFile.LogicalIndex(engine.handle(data))
+        with index_obj as index:
             compare_index(cc, model, index)
             cc.cls('index-route-compared')
+        # the same index object entered again (a tool that indexes, closes and comes back): the same logical files, once
+        with index_obj as index:
+            if len(index.logical_files) != len(model['logical_files']):
+                cc.dev('logical-file-split', 'logical-file-count:index-entered-again', 'entered a second time the index holds %d logical files, the file has %d' % (
+                    len(index.logical_files), len(model['logical_files'])))
+            cc.cls('index-entered-twice')
     except engine.HarnessError:
         raise
     except Exception as err:  # noqa
